@@ -10,6 +10,9 @@ import Driver.Settings
 import Driver.Options
 import Driver.RateLimit
 import Driver.Sched
+import Driver.Access
+import Driver.Format
+import Driver.LocalFS
 open Lean
 
 /-- one handler file per model (Driver/<Model>.lean); the request prefix selects it -/
@@ -29,6 +32,9 @@ def dispatch (j : Json) : Except String Json := do
   else if op.startsWith "options." then Driver.handleOptions op j
   else if op.startsWith "rate." then Driver.handleRateLimit op j
   else if op.startsWith "sched." then Driver.handleSched op j
+  else if op.startsWith "access." then Driver.handleAccess op j
+  else if op.startsWith "format." then Driver.handleFormat op j
+  else if op.startsWith "localfs." then Driver.handleLocalFS op j
   else throw s!"unknown op {op}"
 
 partial def loop (h : IO.FS.Stream) (out : IO.FS.Stream) : IO Unit := do
